@@ -12,12 +12,15 @@ from ..util import (has_call, find_calls, assigned_value, const_str, unparse, kw
                     guards_of, call_tail, control_ancestors)
 from .. import mutate as M
 
+TECHNIQUE = "static analysis: delegation agreement of predict/score, look-up totality over offered actions, sorted-bracket rule, exact rational identity test of Corral's break points against the poles of f, Dense/Sparse ABC dispatch and registration table"
+
 EXPLANATION = ("Sibling rules over every class in coba/learners/{bandit,corral,misguided}.py that has predict and score "
                "(family computed): both delegate to the same predictor attribute, which __init__ builds from the bound "
                "self._pmf, or they are the uniform pair (1/len(actions), unweighted choicew), or they forward unchanged to "
                "the wrapped learner; PMFPredictor/PMFInfoPredictor index and sample the same self._pmfcall(context, "
                "actions); MisguidedLearner.learn forwards every argument and **kwargs; Corral's info kwargs key is the name "
                "of its learn() parameter.")
+EXPLANATION += " R6: make_hashable dispatches on the Dense/Sparse ABCs and the ABC registrations are in place; R7: Corral's break points are exactly the poles of f and the returned weights are f's terms at the root."
 
 UTL = "coba/learners/utilities.py"
 FILES = ["coba/learners/bandit.py", "coba/learners/corral.py", "coba/learners/misguided.py"]
